@@ -137,9 +137,9 @@ func init() {
 		Explain: "Decides, on every CFG path of the producer pipeline, the structural necessary conditions of exactly-once outcomes: " +
 			"each emit on Errors/Successes is paired with exactly one inFlight.Done (C01.emit/done); no loop that disposes batch elements one by one can leave the batch half-disposed (C01.partial); " +
 			"internal markers are Add-ed before they are sent and Done exactly once where consumed (C01.marker-*); every partition set of a produce response is routed to exactly one disposition and the two retriable case lists agree (C01.route); " +
-			"retryMessage re-queues or fails, never both or neither, with the budget test guarding the increment (C01.retry); shutdown waits before closing (C01.shutdown); the sync producer stores the expectation before submitting and answers each event once on its own channel (C01.sync). " +
+			"retryMessage re-queues or fails, never both or neither, with the budget test guarding the increment (C01.retry); shutdown waits before closing (C01.shutdown); the sync producer stores the expectation before submitting and answers each event once on its own channel (C01.sync); after a transport failure both the failed request and the pending buffer are swept before the buffer is replaced (C01.error-sweep); a buffered message is eventually flushed: the flush timer is armed after every add that needs it and reset with every buffer replacement, the output is enabled exactly when a flush is due (C16.flush, shared — a message that is never flushed never gets its outcome). " +
 			"NOT covered: liveness of the retry loop across goroutines, value-dependent behaviour of markers whose budget is exhausted, the idempotent retryBatch hand-off to another broker worker.",
-		Rules: []func(*Ctx){c01Emit, c01Partial, c01Markers, c01Route, c01ErrorSweep, c01Retry, c01Shutdown, c01Sync, c01Loops},
+		Rules: []func(*Ctx){c01Emit, c01Partial, c01Markers, c01Route, c01ErrorSweep, c01Retry, c01Shutdown, c01Sync, c01Loops, c16Flush},
 	})
 }
 
